@@ -196,6 +196,8 @@ func c07WithinRounding(cs *c07Case, model, actual []c07MSample) bool {
 	return true
 }
 
+const c07SigFilesDup = "C07/files-granularity/file-listed-once-per-function-start-line"
+
 const c07SigScaleNDrop = "C07/scaleN/drops-sample-nonzero-only-in-unscaled-columns"
 
 func c07PctOK(got string, value, total int64) bool {
@@ -363,6 +365,8 @@ func (run *c07Run) checkCLI(orig *c07Case, o *c07CLIOut) bool {
 		}
 	}
 	var topAll *c07Top
+	filesGran := orig.Gran == "files"
+	dupName := ""
 	if idx >= 0 && o.TopAll != nil {
 		bad := func(what string, p *c07Proc) {
 			okDirect = false
@@ -374,7 +378,7 @@ func (run *c07Run) checkCLI(orig *c07Case, o *c07CLIOut) bool {
 		}
 		if o.TopAll.RC != 0 {
 			bad("-top fails", o.TopAll)
-		} else if topAll = c07ParseTop(o.TopAll.Stdout); topAll.Bad != "" {
+		} else if topAll = c07ParseTop(o.TopAll.Stdout, filesGran); topAll.Bad != "" {
 			bad("-top output: "+topAll.Bad, o.TopAll)
 			topAll = nil
 		}
@@ -398,12 +402,15 @@ func (run *c07Run) checkCLI(orig *c07Case, o *c07CLIOut) bool {
 					indiv = false
 					break
 				}
-				tx := c07ParseTop(o.TopX[k].Stdout)
+				tx := c07ParseTop(o.TopX[k].Stdout, filesGran)
 				trx, b2 := c07ParseTraces(o.TrX[k].Stdout)
 				if tx.Bad != "" || b2 != "" {
 					bad("report of a single input: "+tx.Bad+b2, o.TopX[k])
 					indiv = false
 					break
+				}
+				if tx.Dup != "" {
+					dupName = tx.Dup
 				}
 				for n, r := range tx.Rows {
 					expFlat[n] += sign * r.Flat
@@ -454,10 +461,18 @@ func (run *c07Run) checkCLI(orig *c07Case, o *c07CLIOut) bool {
 					}
 				}
 				// -diff_base: percentages relative to the base total
-				if cs.Mode == "diff_base" {
+				if topAll.Dup != "" {
+					dupName = topAll.Dup
+				}
+				if dupName != "" {
+					// known finding: at -files granularity the start line of the (blanked) function stays in the
+					// entry's identity, so one file is listed once per distinct start line
+					realViolation(c07SigFilesDup, "-files lists "+dupName+" more than once (its functions have different start lines); the rows are summed for the linearity oracle", orig)
+				}
+				if cs.Mode == "diff_base" && dupName == "" {
 					if o.TopBases != nil {
 						if o.TopBases.RC == 0 {
-							baseTotal = c07ParseTop(o.TopBases.Stdout).Total
+							baseTotal = c07ParseTop(o.TopBases.Stdout, filesGran).Total
 						} else {
 							baseTotal = 0
 						}
@@ -492,7 +507,7 @@ func (run *c07Run) checkCLI(orig *c07Case, o *c07CLIOut) bool {
 			if o.TopRe.RC != 0 || o.TrRe.RC != 0 {
 				bad("report of the reopened -proto output fails", o.TopRe)
 			} else {
-				re := c07ParseTop(o.TopRe.Stdout)
+				re := c07ParseTop(o.TopRe.Stdout, filesGran)
 				if strings.Join(re.Lines, "\n") != strings.Join(topAll.Lines, "\n") {
 					violation(sig("proto-reopen/top-differs/"+cs.Mode), "saving with -proto and reopening changes the -top report: "+c07Trunc(strings.Join(re.Lines, " / "))+" vs "+c07Trunc(strings.Join(topAll.Lines, " / ")), orig)
 					okDirect = false
